@@ -906,6 +906,11 @@ class MessageManager(ClientLike):
         hdr = self.header
         data_cls = _get_core_defs().get(hdr.msg_type)
         if data_cls:
+            # a control message that arrived shorter than its definition: the rest reads as
+            # zero, not as whatever an earlier message (of another client) left in the buffer
+            n = max(hdr.num_data_bytes, 0)
+            if n < data_cls.type_size:
+                self.data_view[n : data_cls.type_size] = bytes(data_cls.type_size - n)
             data = data_cls.from_buffer(self.data_buffer)
             return Message(hdr, data)
         else:
